@@ -162,8 +162,11 @@ PROPS = {
    "the stream's value."
    " PropsUbj.C10: ubj_ext_same_value: every extended value event and its expansion are written as different bytes "
    "(optimized vs plain container) that the reference decoder reads as the SAME value; ubj_keyRef_same / ubj_strRef_same.",
-   "Kernel-checked for the CBOR and UBJSON encoders; JSON and the unfolder by mirror + correspondence + oracle.",
-   partial="JSON encoder, unfolder as consumer: no theorem yet"),
+   " PropsJson.C10 json_ext_same (JSON encoder: same bytes and state). PropsUnf.C10 ext_events_mean_expansion / ext_events_same_outcome / ext_unfold_into_interface: for EVERY "
+   "extended event stream (well-formed or not), EVERY Unfolder context (any target type incl. structs, any stack state) delivering the stream has exactly the outcome of delivering its "
+   "expansion: same result, same stored value, same six stacks and scratch buffers; only the CONTENTS of the key cache differ (it has seen the by-reference keys).",
+   "Kernel-checked for all four consumers: the three encoders and the Unfolder; wrapped plain visitors: the 29 adapter expansions (C09 expand_array_wf / expand_map_wf + regenerated adapter facts).",
+   partial=""),
  "C11": P("DESIGN.md 7 C11",
    "Lean 4 proof (scalar core of the round trip: every integer width, float bits, strings) + differential correspondence of the composed mirrors fold -> codec -> unfold + independent deep-equality oracle",
    "int_roundtrip / int_widening / wrapTo_of_inRange / float_bits_roundtrip / string_roundtrip / nil_resets: the unfolder's "
@@ -206,11 +209,13 @@ PROPS = {
    "fields untouched, unknown members skipped).",
    "Kernel-checked skip clause (all contexts x member values) and GENERIC clause (unfold_into_interface(_fresh), "
    "generic_value_into_container, delivered_value_is_generic, unfold_into_map/slice: every well-formed stream into interface{} / "
-   "map[string]interface{} / []interface{} yields exactly the specification's generic value and restores the context); typed "
-   "targets by scalar conversion lemmas (Props/C11) + mirror + correspondence + oracle.",
+   "map[string]interface{} / []interface{} yields exactly the specification's generic value and restores the context)."
+   " PropsTyped.C13 unfold_scalar_into_typed / unfold_array_into_prim_slice / unfold_object_into_prim_map: the typed-assignment clause for scalar targets of every primitive type, "
+   "[]T and map[string]T with T primitive (any old value in the target: slices are overwritten from the start, maps are merged into): whenever the specification makes a claim the "
+   "mirror accepts and stores the specified value. Nested / pointer / struct targets and user unfolders: mirror + correspondence + oracle (`assign`), op unf-userval.",
    tb=["model: SF/Gotype/Unfold.lean (mirror of gotype/unfold*.go), SF/Gotype/UTypes.lean, Conv.lean, Menagerie.lean; spec: SF/Gotype/UnfoldSpec.lean"],
    assumptions=GOTYPE_ASSUME,
-   partial="typed-assignment theorem for struct / pointer / typed-container targets not yet proved (decided by the oracle `assign`)"),
+   partial="typed-assignment theorem for struct / pointer / nested typed-container targets not yet proved (safety there: C14 theorem; values: oracle `assign`)"),
  "C14": P("DESIGN.md 7 C14",
    "Lean 4 proof (pre-allocation bound for every announced length; Reset+SetTarget = fresh from any context) + regenerated SSA facts about allocation sites + differential correspondence over mismatches/abandon positions",
    "prealloc_bounded / prealloc_exact / typed_prealloc_le: an announced length allocates min(l,1024) elements for every l; "
@@ -224,11 +229,14 @@ PROPS = {
    "empty-stack pop, nil dereference and invalid type code. Oracle: never panic/crash/hang; reused = fresh; depths idle.",
    "Kernel-checked allocation bound, reset law, and NO PANIC for generic targets on ANY event sequence whatsoever "
    "(any_events_into_interface, no_panic_any_events_into_interface, no_panic_into_interface: ok or error, the only panic is "
-   "the documented one for an element-type code 17..255 that no producer of this library emits); typed targets by mirror + "
-   "correspondence + oracle.",
+   "the documented one for an element-type code 17..255 that no producer of this library emits)."
+   " PropsTyped.C14 any_events_into_typed / any_ext_events_into_typed / no_panic_any_events_into_typed / typed_complete_is_idle: the same for TYPED targets of the family "
+   "bool, string, all integer widths, float32/64, interface{} closed under []T, map[string]T, *T at any nesting: ANY basic or extended event sequence is accepted or refused "
+   "with an error (never a panic, a stale pointer, a wrong-shaped value behind a pointer, an out-of-range scratch slot), and a completed document leaves all six stacks and the scratch buffers idle. "
+   "Struct and user-unfolder targets: mirror / self-checking ops + correspondence + oracle.",
    tb=["model: SF/Gotype/Unfold.lean; facts: SF/Gen/Alloc.lean regenerated by sffacts (x/tools SSA)"],
    assumptions=GOTYPE_ASSUME,
-   partial="no-panic theorem for TYPED targets (structs, pointers, typed containers) not yet proved; "
+   partial="no-panic theorem for targets containing STRUCTS or named types not yet proved (typed family without structs: proved); "
            "writes outside the target cannot be exhibited by the model (memory safety of unsafe offsets is a runtime fact: "
            "covered by the unf-type descriptor comparison and Go's checkptr in the race run only)"),
  "C15": dict(P("DESIGN.md 7 C15",
@@ -268,8 +276,10 @@ PROPS = {
    " PropsUbjP.C16 ubj_parser_returns_visitor_error / ubj_writeChunks_returns_visitor_error / ubj_no_visitor_error (unconditional: every byte string, chunking, fault index)."
    " PropsFold.C16 fold_fault_truncates / fold_propagates_visitor_error / fold_ok_means_fault_not_reached: UNCONDITIONAL (every type, value, option record, fault index): the fold on a "
    "visitor failing at event k IS the healthy fold truncated after event k with the visitor's error.",
-   "Kernel-checked for the encoders and the parsers of all three formats and for gotype Fold; pull decoders and gotype Unfold by mirror + correspondence + oracle.",
-   partial="pull decoders, gotype Unfold: mirror + exhaustive fault-index correspondence, no theorem yet"),
+   " PropsDec.C16 {cbor,json,ubj}_reader_decoder_returns_visitor_error / _visitor_error_iff (+ byte-slice): UNCONDITIONAL for the three pull decoders: every read script, buffer size, "
+   "byte content, fault index counted across Next calls: a call returns the visitor's error iff k+1 events were delivered in total, never more are, it is the last call.",
+   "Kernel-checked for the encoders, the parsers and the pull decoders of all three formats and for gotype Fold.",
+   partial="the statement has no Unfold instance (the Unfolder is a consumer: its own errors are what C14 is about)"),
  "C17": P("DESIGN.md 7 C17",
    "Lean 4 proof (documents restore every stack; reuse = fresh by induction on histories) + differential correspondence with depth hooks",
    "cbor_encoder_reuse / cbor_parser_reuse / cbor_parser_idle. Correspondence: ops `reuse-enc` / `reuse-parse` (histories "
